@@ -2,7 +2,10 @@
 
 use crate::engine::Family;
 
+pub mod c10;
+pub mod c11;
 pub mod c12;
+pub mod c19;
 
 pub struct PropMeta {
     pub level: &'static str,
@@ -33,11 +36,29 @@ pub fn meta(id: &str) -> PropMeta {
         thorough_bound: "",
     };
     match id {
+        "C10" => {
+            m.rule = "exhaustive value sweeps on the real Encoder/Decoder (growable target with a pre-filled prefix, exactly-sized and one-byte-too-small slice targets): every bool/u8/i8/u16/i16; u32/i32/u64/i64 within 64 of every power of two; f32/f64 for every sign and exponent with sparse mantissas (incl. NaN payloads, infinities, subnormals); varint/varuint/size from every source width within 64 of every power of two up to 2^64 and of each range limit, decoded into every target width; every var value of magnitude < 2^22 (quick) / 2^30 (thorough); every f32 bit pattern (thorough); every Unicode scalar as a one-character string, all strings of length <= 3 over one representative per UTF-8 width, size-prefix thresholds; all sequence/dictionary shapes with <= 5 (quick) / 6 (thorough) leaves over 16 concrete collection types. Oracle: independent u128 bit-level reference must give the same bytes (whole output), decode returns the original (bit-exact), consumes exactly the bytes written, refused values leave the output unchanged. A case is a chunk of values; non-trivial = values needing more than one byte or negative; distinct = distinct chunks.";
+            m.explanation = "value-space enumeration against an independent wire-format reference";
+            m.quick_bound = "var magnitude < 2^22 exhaustive; collections <= 5 leaves";
+            m.thorough_bound = "var magnitude < 2^30 exhaustive; all 2^32 f32 patterns; collections <= 6 leaves";
+        }
+        "C11" => {
+            m.rule = "for each of 35 decodable types (fixed-width, varint/varuint into every width, size, String, Vec<..>, HashMap/BTreeMap, skip_tagged_fields, the generator-reply types from definition_types.rs and the (files, diagnostics) reply pair): every byte string of length <= 2 (quick) / <= 3 (thorough) is decoded by the real decoder from a sub-slice placed between sentinel regions and compared with an independent reference decoder (Ok/Err agreement, value, consumed prefix); every returned error is rendered with to_string(); bytes allocated during the decode are counted by the harness' allocator and must stay <= 256*len+4KiB; plus the announced-size family (size prefixes of every width announcing up to 2^62-1 followed by 0-2 payload bytes) and every truncation and single-byte substitution of valid encodings. A case is a chunk of byte strings sharing a prefix; all are non-trivial (each executes the decoder on untrusted input); distinct = distinct chunks.";
+            m.explanation = "input-space enumeration (all short byte strings x all types) with a reference decoder and allocation accounting";
+            m.quick_bound = "all byte strings of length <= 2 per type; corruptions of encodings <= 12 bytes";
+            m.thorough_bound = "all byte strings of length <= 3 per type; corruptions of encodings <= 24 bytes";
+        }
         "C12" => {
             m.rule = "stateright BFS over all operation histories (write_byte, write_bytes_exact(k), reserve_space(k), write_bytes_into_reserved_exact(r,k), k in 0..=3, r any reservation made so far) on SliceOutputTarget of capacity 0..=4 and VecOutputTarget, and over all read/peek histories on SliceInputSource of length 0..=4; the transition function replays the history on a fresh REAL object in lock-step with an append-only-log model; states are de-duplicated on the complete observable implementation state (buffer incl. guard regions, position, reservation ranges). Plus every periodic history (period <= 3, sizes 0/1/63/64/4096) run for 200 steps. distinct = distinct (target, bound) searches plus distinct periodic histories; non-trivial = the history contains a non-empty reservation that is later written into (periodic) / the target or source is non-empty (searches). unique_states/generated_states of the searches are reported in extra_counters and folded into states/transitions.";
             m.explanation = "explicit-state search with the real objects inside the transition function; lock-step comparison against a Vec<u8> log model in every generated state";
             m.quick_bound = "history depth <= 5, k <= 3, capacity <= 4; periodic: 200 steps";
             m.thorough_bound = "history depth <= 7, k <= 3, capacity <= 4; periodic: 200 steps";
+        }
+        "C19" => {
+            m.rule = "every string of length <= 7 (quick) / <= 9 (thorough) over {a, space, ',', '=', backslash} and of length <= 4 / <= 5 over that alphabet extended with {b, tab, é, \"} is passed to the real command line (SliceOptions::try_parse_from([slicec, -G, s])) and compared with a reference parser written from the statement (accept/reject, path, pairs, order); round trip: every (path, first key) pair over all components of length <= 2 over {a , = space é backslash} not ending in a backslash, with every value and 2-3 argument lists, rendered through the escaping function with/without trailing comma and with/without '=' for empty values; all ordered pairs of short specifications given as two -G options. A case is a chunk of strings sharing a prefix; non-trivial = chunk contains separators or escapes (all do); distinct = distinct chunks.";
+            m.explanation = "input-space enumeration of the generator-specification language against a reference parser";
+            m.quick_bound = "strings <= 7 over 5 chars, <= 4 over 9 chars; round trip <= 2 args";
+            m.thorough_bound = "strings <= 9 over 5 chars, <= 5 over 9 chars; round trip <= 3 args";
         }
         _ => {}
     }
@@ -46,7 +67,10 @@ pub fn meta(id: &str) -> PropMeta {
 
 pub fn families(id: &str, tier: &str) -> Vec<Box<dyn Family>> {
     match id {
+        "C10" => c10::families(tier),
+        "C11" => c11::families(tier),
         "C12" => c12::families(tier),
+        "C19" => c19::families(tier),
         _ => vec![],
     }
 }
